@@ -1,5 +1,6 @@
 """Batch runner: seeds -> runs -> violations -> minimised replay files -> evidence."""
 import concurrent.futures as cf
+from concurrent.futures.process import BrokenProcessPool
 import faulthandler
 import hashlib
 import json
@@ -102,7 +103,9 @@ def _shape(C):
 def run_chunk(args):
     """Worker: executes a range of run indices; returns a compact summary."""
     prop, tier, base, indices, deadline = args
-    faulthandler.dump_traceback_later(max(30.0, deadline - time.time() + 60), exit=True)
+    # watchdog for a run that hangs; generous, because one run can take seconds of CPU and the
+    # machine may be heavily oversubscribed (a 60 s margin fired under a 9x overload)
+    faulthandler.dump_traceback_later(max(60.0, deadline - time.time() + 300), exit=True)
     try:  # a decoder fed a garbage count must hit MemoryError quickly, not swap the machine
         import resource
         resource.setrlimit(resource.RLIMIT_AS, (3 << 30, 3 << 30))
@@ -188,7 +191,7 @@ def batch(prop, tier, base, nruns, wall, jobs):
     with cf.ProcessPoolExecutor(max_workers=jobs, mp_context=ctx) as ex:
         futs = [ex.submit(run_chunk, t) for t in tasks]
         try:
-            for fu in cf.as_completed(futs, timeout=wall + 120):
+            for fu in cf.as_completed(futs, timeout=wall + 420):
                 r = fu.result()
                 if "harness_error" in r:
                     for f2 in futs:
@@ -207,6 +210,8 @@ def batch(prop, tier, base, nruns, wall, jobs):
                     agg["samples"].extend(r["samples"])
         except cf.TimeoutError:
             raise HarnessError("worker pool timed out (a worker hung or died)")
+        except BrokenProcessPool:
+            raise HarnessError("a worker process died (watchdog after a hung run, or killed from outside)")
     agg["wall"] = time.time() - t0
     return agg
 
